@@ -31,7 +31,7 @@ def run(ctx):
         rp = json.load(open(ctx.replay))
         open(hist_file, "w").write(json.dumps(rp["replay"]) + "\n")
         res = os.path.join(ctx.scratch, "replay.out")
-        ctx.run_worker(["c19-replay"], stdin_path=hist_file, stdout_path=res)
+        ctx.run_worker(["c19-replay", "-keyform", rp["replay"].get("keyform", "plain")], stdin_path=hist_file, stdout_path=res)
         for line in open(res):
             r = json.loads(line)
             if "failure" in r:
@@ -51,18 +51,26 @@ def run(ctx):
     if n_hist != r3["distinct"]:
         raise core.Inconclusive("TLC printed %d histories for %d distinct states" % (n_hist, r3["distinct"]))
     os.remove(r3["out"])
-    res = os.path.join(ctx.scratch, "replay.out")
-    ctx.run_worker(["c19-replay"], stdin_path=hist_file, stdout_path=res)
+    # the abstract keys are realised twice: as themselves, and with a suffix of characters that JSON must escape
+    # (control characters, quote, backslash, U+2028, ...: harness c19.go ck/ak), so that encode/decode is judged on both
     replayed = failed = 0
-    for line in open(res):
-        r = json.loads(line)
-        if "replayed" in r:
-            replayed, failed = r["replayed"], r["failed"]
-            continue
-        op = r["hist"][r["step"]]["op"] if r["hist"] else "new"
-        ctx.fail(classify(op, r["failure"]), r["failure"], {"hist": r["hist"], "m": r["m"]})
-    if replayed != n_hist:
-        raise core.Inconclusive("worker replayed %d of %d histories" % (replayed, n_hist))
+    for keyform in ("plain", "escaped"):
+        res = os.path.join(ctx.scratch, "replay_%s.out" % keyform)
+        ctx.run_worker(["c19-replay", "-keyform", keyform], stdin_path=hist_file, stdout_path=res)
+        done = 0
+        for line in open(res):
+            r = json.loads(line)
+            if "replayed" in r:
+                done = r["replayed"]
+                failed += r["failed"]
+                continue
+            op = r["hist"][r["step"]]["op"] if r["hist"] else "new"
+            ctx.fail(classify(op, r["failure"]), r["failure"] + (" (keys realised with characters that need escaping)" if keyform == "escaped" else ""),
+                     {"hist": r["hist"], "m": r["m"], "keyform": keyform})
+        if done != n_hist:
+            raise core.Inconclusive("worker replayed %d of %d histories (%s keys)" % (done, n_hist, keyform))
+        replayed += done
+    cov["key_realisations"] = ["plain", "escaped (suffix of control characters, DEL, quote, backslash, <, &, U+2028, U+00E9, U+E0001)"]
     with open(hist_file) as f:
         for i, line in enumerate(f):
             if i in (7, 1000, n_hist - 1):
@@ -96,7 +104,8 @@ def run(ctx):
             j -= 1
         f = rec["failure"] or "iterate: observed state differs from the specification's"
         pre = recs[idx - 2]["post"] if idx >= 2 and recs[idx - 2]["ev"] == "op" else []
-        ctx.fail(classify(rec["op"], f), f + " (random trace, record %d)" % idx, {"hist": hist, "m": _expected(pre, rec)})
+        ctx.fail(classify(rec["op"], f), f + " (random trace, record %d)" % idx, {"hist": hist, "m": _expected(pre, rec),
+                  "keyform": "escaped" if (trace_no[idx - 1] - 1) % 2 == 1 else "plain"})
     ops_validated = sum(1 for r in recs if r["ev"] == "op") - nfail
 
     # binding self-test: a corrupted record must be rejected in strict mode
